@@ -17,7 +17,7 @@ RULE = ("random (stated velocity, stated powder temperature, modifier | second m
         "explicit powder temperature; non-trivial when sensitivity is on and the query/second temperature differs "
         "from the stated one")
 MUST_OBSERVE = ["off_queries", "linear_queries", "calibrations", "calib_dv-_dT-", "calib_dv-_dT+", "calib_dv+_dT-",
-                "calib_dv+_dT+", "degenerate_rejected", "launches", "launch_powder_t_given", "launch_powder_t_default", "restated", "zeroing_launches"]
+                "calib_dv+_dT+", "degenerate_rejected", "launches", "launch_powder_t_given", "launch_powder_t_default", "restated", "zeroing_launches", "bare_ints_passed"]
 ASSUMPTIONS = ["temperatures converted to Celsius and velocities to m/s with exact affine/linear maps (C06 covers the library's)"]
 TU = ["Celsius", "Fahrenheit", "Kelvin", "Rankin"]
 VU = {"MPS": 1.0, "FPS": 0.3048, "KMH": 1 / 3.6, "MPH": 0.44704, "KT": 1852 / 3600}
@@ -40,17 +40,28 @@ def temp_arg(rng, t_c, case, key):
     return _temp(case[key])
 
 
+INTS_PASSED = [0]
+
+
+def _int_if_whole(x):
+    """A whole bare number is handed over as a Python int (callers write 15, not 15.0)."""
+    if float(x).is_integer() and abs(x) < 1e9:
+        INTS_PASSED[0] += 1
+        return int(x)
+    return x
+
+
 def _temp(d):
     if d["bare"]:
         PreferredUnits.temperature = Unit[d["unit"]]
-        return c_to(d["unit"], d["t_c"])
+        return _int_if_whole(c_to(d["unit"], d["t_c"]))
     return Unit[d["unit"]](c_to(d["unit"], d["t_c"]))
 
 
 def _vel(d):
     if d["bare"]:
         PreferredUnits.velocity = Unit[d["unit"]]
-        return d["v_mps"] / VU[d["unit"]]
+        return _int_if_whole(d["v_mps"] / VU[d["unit"]])
     return Unit[d["unit"]](d["v_mps"] / VU[d["unit"]])
 
 
@@ -75,6 +86,15 @@ def mk_ammo(case):
 
 
 def check_case(ctx, case):
+    try:
+        _check_case(ctx, case)
+    finally:
+        if INTS_PASSED[0]:
+            ctx.count("bare_ints_passed", INTS_PASSED[0])
+            INTS_PASSED[0] = 0
+
+
+def _check_case(ctx, case):
     reset_globals()
     kind = case["kind"]
     ammo = mk_ammo(case)
@@ -218,7 +238,7 @@ def gen_case(rng):
         return {"v_mps": round(rng.uniform(lo, hi), 3), "unit": rng.choice(list(VU)), "bare": rng.random() < 0.3}
 
     def tmp(lo=-45.0, hi=55.0):
-        t = rng.choice([0.0, 15.0, round(rng.uniform(lo, hi), 2)])
+        t = rng.choice([0.0, 15.0, round(rng.uniform(lo, hi), 2), float(rng.randint(int(lo), int(hi)))])
         return {"t_c": t, "unit": rng.choice(TU), "bare": rng.random() < 0.3}
 
     kind = rng.choice(["off", "linear", "linear", "calibration", "calibration", "calibration", "launch", "launch", "restate"])
